@@ -2,6 +2,7 @@ package simrt
 
 import (
 	"sync"
+	"sync/atomic"
 	"testing"
 )
 
@@ -338,4 +339,70 @@ func TestSlotPressure(t *testing.T) {
 	if st.SlotPressure == 0 {
 		t.Fatalf("slot pressure never hit (tasks %d)", st.Tasks)
 	}
+}
+
+// a one-entry memo made of two separate atomics (type, size): correct with one writer, wrong
+// under an A-B-A interleaving around the atomic operations, invisible to the race detector
+type twoAtomicsMemo struct{ typ, size atomic.Int64 }
+
+func (m *twoAtomicsMemo) sizeOf(t int64) int64 {
+	if After(50, m.typ.Load()) == t {
+		return After(51, m.size.Load())
+	}
+	size := t * 100 // the "computation"
+	m.size.Store(size)
+	YieldAtomic(52)
+	m.typ.Store(t)
+	YieldAtomic(53)
+	return size
+}
+
+func memoWorkload(nTasks int) (wrong int) {
+	var m twoAtomicsMemo
+	var wg sync.WaitGroup
+	WGAdd(&wg, nTasks)
+	bad := make([]int, nTasks)
+	for i := 0; i < nTasks; i++ {
+		tk := Spawn()
+		go func() {
+			TaskBegin(tk)
+			defer TaskEnd(tk)
+			defer WGDone(&wg)
+			for k := 0; k < 30; k++ {
+				Yield(int32(k))
+				t := int64(1 + (i+k)%3)
+				if m.sizeOf(t) != t*100 {
+					bad[i]++
+				}
+			}
+		}()
+		Spawned()
+	}
+	WGWait(&wg)
+	for _, b := range bad {
+		wrong += b
+	}
+	return
+}
+
+func TestAtomicSandwichFindsTwoAtomicsBug(t *testing.T) {
+	found := map[string]int{}
+	for seed := uint64(1); seed <= 40; seed++ {
+		for name, cfg := range map[string]*SchedConfig{
+			"pct": {Strategy: StratPrio, PrioRule: PrioRandomMainHi, PrioSeed: seed},
+			"rw":  {Strategy: StratRW, RWSeed: seed, RWMeanGap: 200},
+		} {
+			Start(cfg)
+			w := memoWorkload(6)
+			Drain()
+			Stop()
+			if w > 0 {
+				found[name]++
+			}
+		}
+	}
+	if found["pct"] == 0 || found["rw"] == 0 {
+		t.Fatalf("schedules that expose the two-atomics memo: %v of 40 each", found)
+	}
+	t.Logf("exposing schedules out of 40: %v", found)
 }
